@@ -123,6 +123,10 @@ pub struct Job {
     /// replayable HTLC is delivered again), "probe" (the scenario's probe set arrives now)
     #[serde(default)]
     pub epilogue: Vec<String>,
+    /// cltv_expiry_relative of an HTLC is its expiry minus the chain height at the moment it is delivered
+    /// (what lightningd reports; it shrinks on a replay after blocks arrived) instead of the fixed `rel`
+    #[serde(default)]
+    pub derive_rel: bool,
     /// record the onion payload bytes of every HTLC in the trace (C13 payload clause)
     #[serde(default)]
     pub payload: bool,
@@ -389,7 +393,10 @@ impl Driver {
     }
 
     async fn do_htlc(&mut self, mgr: &Arc<Mgr>, i: u64) {
-        let spec = self.specs[&i].clone();
+        let mut spec = self.specs[&i].clone();
+        if self.job.derive_rel {
+            spec.rel = spec.exp as i64 - sim::with(|s| s.height) as i64;
+        }
         let req = cat::request_json(i, &spec, &self.job.scen.invs, &mut self.cache);
         self.hst.insert(i, HSt::Held);
         let mgr = Arc::clone(mgr);
@@ -725,7 +732,7 @@ impl Driver {
                         v.push((if drain { 5 } else { 3 }, json!({"a":"payreturn","sel":{"call":id},"outcome":"failed"})));
                     }
                     let w = if drain && (done || !live) { 0 } else { 2 };
-                    for o in ["pending", "failed_warn", "error", "pending_nopre"] {
+                    for o in ["pending", "failed_warn", "error", "pending_nopre", "transport", "nocode"] {
                         if w > 0 {
                             v.push((w, json!({"a":"payreturn","sel":{"call":id},"outcome":o})));
                         }
@@ -952,7 +959,7 @@ impl<'a> serde::Serialize for SpecOut<'a> {
     fn serialize<S: serde::Serializer>(&self, s: S) -> Result<S::Ok, S::Error> {
         let h = self.0;
         json!({"hash":h.hash,"inv":h.inv,"amt":h.amt,"total":h.total,"exp":h.exp,"rel":h.rel,
-               "decl":h.decl,"decl_len":h.decl_len,"fwd":h.fwd,"fwdmsat":h.fwdmsat,
+               "decl":h.decl,"decl_len":h.decl_len,"fwd":h.fwd,"fwdmsat":h.fwdmsat,"fwd_amt":h.fwd_amt,
                "meta": if h.meta.starts_with("raw:") { "raw" } else { h.meta.as_str() }})
             .serialize(s)
     }
